@@ -3,12 +3,14 @@ from .. import common as C
 from .. import server_sim as S
 from .. import pycodec
 from .. import gen as G
+from .. import server_gen as SG
 
 LEVEL = 'proof'
 
 PROFILE = {
     'weights': {'event': 14, 'connect': 6, 'open': 2, 'emit': 1, 'emit_cb': 0, 'ack': 0, 'enter': 0, 'leave': 0,
-                'close': 0, 'rooms': 0, 'api_disconnect': 1, 'client_disconnect': 2, 'lost': 1, 'partial_binary': 1},
+                'close': 0, 'rooms': 0, 'api_disconnect': 1, 'client_disconnect': 2, 'lost': 1, 'partial_binary': 1,
+                'register': 0},     # run-time registrations: switched on per case by `hook`
     'connect_outcomes': {'accept': 8, 'false': 1, 'refuse': 1, 'raise': 0},
     'asset_p': 0.5,      # handlers often return a value the application keeps (same object every time)
 }
@@ -28,8 +30,26 @@ def judge(cfg, trace, stats=None):
     conn = {}          # (tid, ns) -> sid
     pend = {}          # tid -> frames of a binary packet being sent
     nev = 0            # event-handler invocations so far (index into the script)
+    start_cfg = cfg    # the script; `cfg` below is the configuration with the registries AS THEY ARE at each op
+    gens = {}          # ('fn', ns, ev) / ('cls', ns) -> number of run-time registrations of that key so far
+    last_resp = {}     # (ns, event) -> (slot, generation) responsible when that event was last handled
     for op, im, _mo in trace:
         before = dict(conn)
+        if op['op'] == 'register':
+            cfg = S.registry_after(cfg, op)
+            for f in op.get('fn', []):
+                gens[('fn', f[0], f[1])] = gens.get(('fn', f[0], f[1]), 0) + 1
+            for c in op.get('cls', []):
+                gens[('cls', c[0])] = gens.get(('cls', c[0]), 0) + 1
+            stats['handlers_registered_while_the_server_runs'] = stats.get('handlers_registered_while_the_server_runs', 0) + 1
+            if im['exc']:
+                fails.append((None, 'registering a handler raised %s: %r' % (im['exc'], op)))
+        for slot, gen in im.get('handler_gens', []):
+            key = tuple(slot) if slot[0] == 'fn' else ('cls', slot[1])
+            if gen != gens.get(key, 0):
+                fails.append((None, 'while handling %r the handler invoked for %r is registration #%d of that key, '
+                                    'the one in place is #%d: a handler that has been replaced was invoked'
+                              % (S._brief(op), slot, gen, gens.get(key, 0))))
         if im.get('app_modified'):
             # "the ACK carries the handler's return value": the value is the application's, the library may read it
             fails.append((None, 'while handling %r the library modified an object that belongs to the application: %s'
@@ -90,6 +110,20 @@ def judge(cfg, trace, stats=None):
             fails.append((None, 'more than one handler invocation for one event: %r' % (evs,)))
         if isinstance(p['data'], list) and p['data'] and isinstance(p['data'][0], str) and \
                 p['data'][0] not in ('connect', 'disconnect'):
+            # the handler responsible for this event AT THIS MOMENT (the registries may have changed since the same
+            # event was handled last)
+            want = responsible_slot(cfg, p['ns'], p['data'][0])
+            for slot, _args in evs:
+                if want is None or tuple(slot) != want:
+                    fails.append((None, 'the handler responsible for %r on %s is now %r, invoked was %r'
+                                  % (p['data'][0], p['ns'], want, slot)))
+            now = None if want is None else (want, gens.get(want if want[0] == 'fn' else ('cls', want[1]), 0))
+            was = last_resp.get((p['ns'], p['data'][0]), 'never seen')
+            if was != 'never seen' and was != now:
+                key = ('events_whose_responsible_handler_changed_since_the_same_event_arrived_last' if was is not None
+                       else 'events_nobody_was_responsible_for_when_they_arrived_last_and_somebody_is_now')
+                stats[key] = stats.get(key, 0) + 1
+            last_resp[(p['ns'], p['data'][0])] = now
             tgt = S.event_target(cfg, p['ns'], p['data'][0])
             if tgt in ('fn', 'cls') and not evs and not im['raised']:
                 fails.append((None, 'with async_handlers disabled the event was not handled before the next message '
@@ -117,7 +151,7 @@ def judge(cfg, trace, stats=None):
             if len(acks) != 1 or acks[0][0] != t or acks[0][1]['id'] != p['id'] or acks[0][1]['ns'] != p['ns']:
                 fails.append((None, 'expected exactly one ACK id=%r ns=%r to %s, saw %r' % (p['id'], p['ns'], t, acks)))
             elif evs:
-                ret = cfg['onEvent'][first_ev]['ret'] if first_ev < len(cfg['onEvent']) else None
+                ret = start_cfg['onEvent'][first_ev]['ret'] if first_ev < len(start_cfg['onEvent']) else None
                 want = [] if ret is None else (list(ret) if isinstance(ret, tuple) else [ret])
                 if not C.same(_norm(acks[0][1]['data']), _norm(want)):
                     fails.append((None, 'ACK payload %r is not the handler\'s return value %r' % (acks[0][1]['data'], ret)))
@@ -135,6 +169,21 @@ def judge(cfg, trace, stats=None):
                             stats['binary_acks_of_value_returned_before'] = \
                                 stats.get('binary_acks_of_value_returned_before', 0) + 1
     return fails
+
+
+def responsible_slot(cfg, ns, ev):
+    """documented precedence for an ordinary event, as the slot that has to run: function handlers ns/event, ns/*,
+    */event, */* (an event literally named '*' only reaches catch-alls), then the class-based namespace of ns, then
+    the catch-all one (None when its class has no such method: nothing is invoked)"""
+    fns = [tuple(f) for f in cfg['fn']]
+    for key in ([(ns, ev)] if ev != '*' else []) + [(ns, '*')] + ([('*', ev)] if ev != '*' else []) + [('*', '*')]:
+        if key in fns:
+            return ('fn',) + key
+    for want_ns in (ns, '*'):
+        for cns, ms in cfg['cls']:
+            if cns == want_ns:
+                return ('cls', cns, 'on_' + ev) if ('on_' + ev) in ms else None
+    return None
 
 
 def _decode(frames):
@@ -181,10 +230,76 @@ def nontrivial(cfg, trace):
 _CTX = [None]
 
 
+def hook(sc, cfg):
+    """in half of the cases the application keeps registering handlers while the server runs: mostly a handler that
+    takes over an event that has just been handled (the key itself — a replacement when it exists —, the namespace's
+    catch-all, the catch-all namespace's handler for the event, the global catch-all), followed by the same event from
+    the same client again"""
+    rng = sc.rng
+    sc.g_register = lambda: None
+    if rng.random() < 0.5:
+        return
+    sc.weights['register'] = 5
+    if rng.random() < 0.8:
+        cfg['asyncHandlers'] = False        # judged by the oracle event by event (otherwise at settle time, by the model)
+    recent = []
+    base_event = sc.g_event
+
+    def g_event():
+        op = base_event()
+        if op is not None and op['op'] == 'frame':
+            try:
+                p = pycodec.decode_text(op['text'])
+                if p['type'] in (2, 5) and p['data'][0] in SG.EVENTS + ['*']:
+                    recent.append((op['t'], p['ns'], p['data'][0]))
+            except Exception:   # noqa
+                pass
+        return op
+
+    reg = [cfg]               # the registries as they are now (generation guidance)
+    methods = ['on_connect', 'on_disconnect', 'on_msg', 'on_echo', 'on_other']
+
+    def g_register():
+        again = None
+        if not sc.conn and rng.random() < 0.9:
+            return None
+        live = [r for r in recent[-12:] if (r[0], r[1]) in sc.conn]
+        op = None
+        if live and rng.random() < 0.85:
+            t, ns, ev = again = rng.choice(live[-6:])
+            now = responsible_slot(reg[0], ns, ev)
+            if (now is None or now[0] == 'cls') and rng.random() < 0.6:
+                # a class-based namespace takes the event over (from nobody, from the catch-all namespace's object,
+                # from the object registered for the namespace before)
+                ms = set(rng.sample(methods, rng.randint(1, 4)))
+                if rng.random() < 0.85:
+                    ms.add('on_' + ev)
+                op = {'op': 'register', 'fn': [], 'cls': [[rng.choice([ns, ns, '*']), sorted(ms)]]}
+            keys = [rng.choice([[ns, ev], [ns, '*'], ['*', ev], ['*', '*']])]
+        else:
+            keys = [[rng.choice(['/', '/a', '/b', '*']), rng.choice(SG.EVENTS + ['*', '*', 'connect', 'disconnect'])]]
+        if rng.random() < 0.25:
+            keys.append([rng.choice(['/', '/a', '/b', '*']), rng.choice(SG.EVENTS + ['*'])])
+        if op is None:
+            op = {'op': 'register', 'fn': [k for i, k in enumerate(keys) if k not in keys[:i]], 'cls': []}
+            if rng.random() < 0.12:
+                op = {'op': 'register', 'fn': op['fn'] if rng.random() < 0.3 else [],
+                      'cls': [[rng.choice(['/', '/a', '/b', '*']), sorted(rng.sample(methods, rng.randint(1, 5)))]]}
+        reg[0] = S.registry_after(reg[0], op)
+        if again and (again[0], again[1]) in sc.conn and rng.random() < 0.85:
+            args = [G.gen_value(rng, 2, 0.2) for _ in range(rng.randint(0, 2))]
+            frames = pycodec.encode(2, again[1], rng.choice([None, 1, 7, 12]), [again[2]] + args)
+            sc.pending_frames = [{'op': 'frame', 't': again[0], 'text': f} if isinstance(f, str) else
+                                 {'op': 'frameval', 't': again[0], 'v': f} for f in frames] + sc.pending_frames
+        return op
+
+    sc.g_event, sc.g_register = g_event, g_register
+
+
 def run(ctx):
     _CTX[0] = ctx
     C.proof_step(ctx, ['engine.io delivers one transport\'s messages sequentially and contains handler exceptions'])
-    S.run_cases(ctx, PROFILE, ctx.scale(120, 2500), 40, oracle=oracle, nontrivial=nontrivial)
+    S.run_cases(ctx, PROFILE, ctx.scale(120, 2500), 40, oracle=oracle, nontrivial=nontrivial, gen_hook=hook)
     # an event that arrives while the same client's disconnect is in progress (asyncio, all release orders)
     from .. import sched_async
     sched_async.run_event_during_disconnect(ctx)
@@ -192,7 +307,10 @@ def run(ctx):
                             'across clients/huge, binary arguments, handlers returning None/scalars/lists/dicts/tuples/bytes; the '
                             'application keeps ONE object per distinct return / emit value and hands the same object over every '
                             'time, checked unmodified after every step; coroutine handlers that end with asyncio.CancelledError '
-                            'where the script says accept / return None / handled) run on '
+                            'where the script says accept / return None / handled; in half of the cases the application '
+                            'registers further function handlers / class-based namespaces while the server runs — new keys, '
+                            'catch-alls that take over events already handled, replacements — and the same event is sent again: '
+                            'the handler responsible at that moment must be the one invoked) run on '
                             'Server and AsyncServer and on the Lean model, compared op by op; oracle = statement of C05 on the wire '
                             '(one ACK, same id and namespace, to the sender only, binary iff the return value contains bytes, payload '
                             'equal to the return value). '
